@@ -171,6 +171,33 @@ def r2_precedence_shape(ctx: Context) -> None:
               "hard constraint over every parent in the model", "Z3 does not assert start >= parent.start + parent remaining time for every parent")
 
 
+PLANNER_FILES = ("schedulers/ilp_scheduler.py", "schedulers/tetrisched_gurobi_scheduler.py", "schedulers/tetrisched_cplex_scheduler.py")
+
+
+def r2c_running_pinned_to_now(ctx: Context, rule: str = "C11.R2c") -> None:
+    ctx.rule(rule, "a RUNNING task enters the model with start = the current time (its remaining time is counted from now): the "
+                   "precedence bound `parent.start + remaining_time` and the occupied space-time cell are only right for that start")
+    n = 0
+    for rel in PLANNER_FILES:
+        init = method(ctx.repo.mod(rel).cls("TaskOptimizerVariables"), "__init__")
+        now = lin.lin_of(ast.parse("current_time", mode="eval").body)
+        for br in [x for x in ast.walk(init) if isinstance(x, ast.If) and "TaskState.RUNNING" in norm(x.test) and isinstance(x.test, ast.Compare)
+                   and isinstance(x.test.ops[0], ast.Eq)]:
+            for a in [y for st in br.body for y in ast.walk(st) if isinstance(y, ast.Assign)]:
+                t = a.targets[0]
+                if isinstance(t, ast.Attribute) and t.attr == "_start_time":
+                    n += 1
+                    ctx.check(lin.lin_of(a.value) == now, rule, f"{rel}::TaskOptimizerVariables.__init__|running task starts now", loc(a),
+                              "start := current_time", f"a RUNNING task's model start is `{norm(a.value)[:60]}`, not the current time: its expected "
+                              "finish `start + remaining_time` is under-estimated by the time it has already run, so a child may be planned "
+                              "while it is still running")
+                if isinstance(t, ast.Name) and isinstance(a.value, ast.Tuple) and len(a.value.elts) == 3 and "key" in t.id:
+                    n += 1
+                    ctx.check(lin.lin_of(a.value.elts[1]) == now, rule, f"{rel}::TaskOptimizerVariables.__init__|running task's cell is at the current time", loc(a),
+                              "cell time := current_time", f"the occupied cell of a RUNNING task is keyed at `{norm(a.value.elts[1])[:60]}`")
+    ctx.floor(rule, "start pins of RUNNING tasks in the planners", n, 4)
+
+
 def r3_all_parents_placed(ctx: Context) -> None:
     ctx.rule("C11.R3", "placed only if all parents placed: complementary indicator pair over len(parent_tasks); placement sum forced to 0 when the indicator is 0")
     for pol in (ILP, GUR):
@@ -223,6 +250,34 @@ def r3_all_parents_placed(ctx: Context) -> None:
     ok = bool(pv) and isinstance(pv[0].value, ast.ListComp) and norm(pv[0].value.generators[0].iter) == "task_graph.get_parents(task)"
     ctx.check(ok, "C11.R4", f"{Z3S[0]}::Z3Scheduler._add_task_dependency_constraints|parents = task_graph.get_parents(task)", loc(pv[0]) if pv else loc(fn), "ok",
               "parents not taken from the graph")
+    if pv and isinstance(pv[0].value, ast.ListComp):
+        gen = pv[0].value.generators[0]
+        pvn = norm(gen.target)
+        okf = len(gen.ifs) == 1 and norm(gen.ifs[0]) == f"{pvn}.unique_name in tasks_to_variables"
+        ctx.check(okf, "C11.R4", f"{Z3S[0]}::Z3Scheduler._add_task_dependency_constraints|every modelled parent is constrained", loc(pv[0]),
+                  "only parents outside the model are left out",
+                  f"the parent list is filtered by {[norm(i)[:70] for i in gen.ifs]}: a parent that is in the model but excluded here (e.g. one "
+                  "that fits on no worker) no longer holds its child back, so the child is placed while that parent is unplaced")
+    for pol in (ILP, GUR):
+        fnb = _builder(ctx, pol)
+        g = cfgmod.build(fnb)
+        stores = [a for a in ast.walk(fnb) if isinstance(a, ast.Assign) and isinstance(a.targets[0], ast.Subscript) and norm(a.targets[0].value) == "parent_variables"]
+        ctx.floor("C11.R4", f"parent_variables stores ({pol[1]})", len(stores), 1)
+        allowed = {"T:variable.task in parent_tasks", "T:num_parents_in_variable > 0", "F:task_variable.previously_placed", "T:len(parent_variables) > 0"}
+        for st in stores:
+            sn = g.node_of(st)
+            ctl = set()
+            for t in g.nodes:
+                if t.kind == "test":
+                    if g.edge_dominates(t, "T", sn):
+                        ctl.add("T:" + norm(t.ast))
+                    elif g.edge_dominates(t, "F", sn):
+                        ctl.add("F:" + norm(t.ast))
+            # type dispatch (Task vs BatchTask) is not a filter
+            extra = sorted(c for c in ctl if c not in allowed and not c.endswith(":True") and not c[2:].startswith("isinstance("))
+            ctx.check(not extra, "C11.R4", f"{pol[0]}::{pol[1]}._add_task_dependency_constraints|every modelled parent is constrained", loc(st),
+                      "a variable is a parent variable iff its task is a parent",
+                      f"a parent in the model is only constrained under {extra}: other parents no longer hold the child back")
     # previously placed tasks are skipped as *children* only
     for pol in (ILP, GUR):
         fn = _builder(ctx, pol)
@@ -235,5 +290,6 @@ def r3_all_parents_placed(ctx: Context) -> None:
 def run(ctx: Context) -> None:
     ctx.isolate(r1_must_call)
     ctx.isolate(r2_precedence_shape)
+    ctx.isolate(r2c_running_pinned_to_now)
     ctx.isolate(r3_all_parents_placed)
     ctx.isolate(c10.r6_indicator_pairs, rule="C11.R3b")
